@@ -12,6 +12,8 @@ C05 — property theorems about the signer model (`Model/Sign.lean`).
 * `C05_lowS_preserves_verify_partial`;
 * `C05_p2pkh_valid`, `C05_p2pk_valid`, `C05_p2wpkh_valid`, `C05_p2sh_p2wpkh_valid` (+ `_signed_valid` forms): `VerifyScript` of
   `Spec/Consensus.lean` accepts the solutions, for every flag set under which signature and key pass the encoding rules;
+* `C05_ecdsa_chk_accepts`: the emitted signature satisfies `CheckSig` instantiated with ECDSA-verify of the digest the model
+  computes (C04's `Model/Sighash.lean` in the driver);
 * `C05_multisig_valid_partial`: the CHECKMULTISIG matching loop accepts signatures laid out in key order (any `m ≤ n`);
 * `C05_partial_order_independent_partial`, `C05_partial_placeholders`, `C05_placeholder_invalid_partial`: partial multisig
   signing;
@@ -410,6 +412,43 @@ theorem C05_multisig_valid_partial (chk : PChk) (flags : Flags) (sv : SigVersion
 example (chk : PChk) (code s1 s3 k1 k2 k3 : Bytes) (h1 : chk s1 k1 code .base = true) (h3 : chk s3 k3 code .base = true) :
     Embeds chk code .base [s1, s3] [k1, k2, k3] :=
   .take h1 (.skip (.take h3 (.nil _)))
+
+/-! ## `checkSig` instantiated: ECDSA-verify of the real digest -/
+
+/-- `CheckSig` as consensus defines it around the two parameters owned by C01 and C04: split off the hash-type byte, parse
+the rest laxly, decode the key, take the signature hash of the script code for that hash type (`dig`, in the driver C04's
+`Model/Sighash.lean`), ECDSA-verify -/
+def ecdsaChk (C : Crypto) (dig : SigVersion → Bytes → Digest) : PChk := fun sig key code sv =>
+  match sig.getLast?, laxDerParse sig.dropLast, C.secToPair key with
+  | some htb, some (r, s), some Q =>
+    match dig sv code htb.toNat with
+    | some z => (match C.verify Q z (r : Int) (s : Int) with | .ok b => b | .error _ => false)
+    | none => false
+  | _, _, _ => false
+
+/-- **The signer's signature satisfies the real `CheckSig`.**  If signing digest `z = dig sv code ht` with the secret gives
+`(r, s)` in range, and ECDSA-verify accepts `(r, low-S(s))` for the listed key (C01: `sign_verifies` and
+`C05_lowS_preserves_verify_partial`), then `ecdsaChk` accepts the emitted blob for that key and script code — the hypothesis
+`hchk` of the `_valid` theorems, now over the digest the model computes itself. -/
+theorem C05_ecdsa_chk_accepts (C : Crypto) (hN : C.order = secp256k1N) (dig : SigVersion → Bytes → Digest)
+    (sv : SigVersion) (code key sig : Bytes) (Q : Curve.Pt) (z r s : Int) (ht : Nat) (hht : ht ≤ 255)
+    (hr1 : 1 ≤ r) (hr2 : r < secp256k1N) (hs1 : 1 ≤ s) (hs2 : s < secp256k1N)
+    (hz : dig sv code ht = some z) (hQ : C.secToPair key = some Q)
+    (hv : C.verify Q z r (lowS C.order s) = .ok true)
+    (hsig : binarySignature r (lowS C.order s) ht = .ok sig) :
+    ecdsaChk C dig sig key code sv = true := by
+  rw [hN] at hv hsig
+  obtain ⟨sig', hsig', hcan, hlax, _⟩ := C05_sig_canonical r s ht hr1 hr2 hs1 hs2 hht
+  rw [hsig] at hsig'
+  cases hsig'
+  obtain ⟨l1, l2, _⟩ := lowS_range hs1 hs2
+  unfold ecdsaChk
+  have hto : (UInt8.ofNat ht).toNat = ht := by simp [UInt8.toNat_ofNat']; omega
+  rw [hcan.2.2, hlax, hQ]
+  simp only [hto, hz]
+  have e1 : ((r.toNat : Nat) : Int) = r := by omega
+  have e2 : (((lowS secp256k1N s).toNat : Nat) : Int) = lowS secp256k1N s := by omega
+  rw [e1, e2, hv]
 
 /-! ## partial signing -/
 
